@@ -5,7 +5,7 @@ import json, os, sys
 
 ROOT = os.path.dirname(os.path.dirname(os.path.abspath(__file__)))
 
-TECH = "static analysis: repository-specific path / dataflow / provenance / lockset / table rules over go/types + go/ssa (+ VTA call graph); paths step into helpers unknown to the rule base; no execution"
+TECH = "static analysis: repository-specific path / dataflow / provenance / lockset / table rules over go/types + go/ssa (+ VTA call graph); paths carry branch facts, nil-ness and integer difference constraints and step into helpers unknown to the rule base; bit-level and string-template normal forms; no execution"
 
 NOTE = ("Decides the listed necessary structural conditions on every path / call site / table row of /repo's current source; "
         "it does not decide the runtime behaviour the property quantifies over. Trusted base: go/packages, go/types, go/ssa "
@@ -71,6 +71,24 @@ EXTRA = {
  "C20": " The ignore memo is cleared only when a new key begins; bidirectional replay tolerates BUSYKEY only under ignore (all loop paths).",
 }
 for k, v in EXTRA.items():
+    CLAIMS[k] = (CLAIMS[k][0] + v, CLAIMS[k][1])
+
+# rules added after the third round of independent breaking changes
+EXTRA3 = {
+ "C01": " The decoder's sole-reader and bulk-framing conditions of C12 (the arguments replayed are the bytes the source sent).",
+ "C03": " The distributor picks the worker of a keyed entry from the key alone, so the chunks of one value are appended by one worker.",
+ "C04": " A RESTORE error is taken for 'key exists' only by the two published BUSYKEY texts on the untransformed error text.",
+ "C05": " No arithmetically possible path of the disk collector removes a log segment and keeps the snapshot indexed (integer difference constraints over the path); the running log writer is closed before its successor's file is created.",
+ "C06": " The disk cache re-reads its directory whenever a run id is (re)confirmed; the in-memory resume position gets a run id only together with its offset.",
+ "C08": " The 'still being written' marker is given only to a segment that is handed a writer.",
+ "C10": " The filter tries only grow.",
+ "C13": " A built unit goes somewhere before the next command is read; every unmarked writer is started only where bidirectional sync is established to be off.",
+ "C16": " After a restart the follower's store offers only what was completely received (scan conditions of C08).",
+ "C17": " The recovery scan of a cluster target lists every slot 0..16383.",
+ "C19": " In transactional mode on a cluster target a batch answered with MOVED, ASK or CROSSSLOT is never sent again within the run (all paths of the retry loop).",
+ "C20": " BUSYKEY recognition as in C04; the bidirectional RESTORE carries REPLACE exactly on the paths that established the replace policy; all chunks of one key reach the worker that made the key-exists decision.",
+}
+for k, v in EXTRA3.items():
     CLAIMS[k] = (CLAIMS[k][0] + v, CLAIMS[k][1])
 
 NOT_YET = "check not built yet in this revision (planned, see DESIGN.md section 3)"
